@@ -4,7 +4,7 @@
    (K-inner) the extracted translated code vs the real (%resolve-import x) / symbol-drop / symbol-append
    (K-outer) generated library graphs on disk, import sets of nesting depth <= 4, every candidate name probed
              in the importing environment of the real chibi vs the extracted SPEC (coq/C14/Spec.v)."""
-import hashlib, os, shutil, subprocess, itertools
+import hashlib, os, shutil, subprocess, itertools, time
 from vlib import build as B, core
 from gen import c14_import as G
 
@@ -26,11 +26,14 @@ WRAPPER_FREE = {"wif": ["it"], "wifx": ["it", "x"], "w0": [], "erw": []}
 LEAK_SIG = "closed:sc-free-names:macro-library-binding-visible"
 # round 3: auxiliary-syntax LITERALS.  Every library also defines (unless visible through its imports) and may export/rename/re-export
 #   lit                   its own auxiliary keyword (a macro answering a tagged value, so that (lit) is a safe probe)
-#   (mlit x)              syntax-rules with literals (lit else =>): which literal x matches, (v14lit <lib> lit|else|=>|no)
+#   (mlit x)              syntax-rules with literals (lit else => ulit): which literal x matches, (v14lit <lib> lit|else|=>|ulit|no);
+#                         ulit (round 4) is defined by NO library: unbound inside the macro's library unless that library imports some
+#                         variable under this name (exports may rename to ulit); R7RS 4.3.2: an unbound ulit of the program must match it
 #   (elit x)              er-macro-transformer doing the same with (compare x (rename 'lit)) ...
 # and may re-export (scheme base)'s else => ... _ unquote under other names ((export (rename else otherwise))).
 # The SPEC sees (scheme base) as library number 0 of every graph, exporting exactly these keywords.
 LITS = ["lit", "mlit", "elit"]
+LIT_NAMES = ("lit", "else", "=>", "ulit")          # the literals of mlit / elit, in the order the macros test them
 MACRO_DEFS = ["m1"] + WRAPPERS + LITS
 KW = ["else", "=>", "...", "_", "unquote"]
 KW_ALIASES = ["otherwise", "then", "dots", "any", "unq"]
@@ -150,6 +153,29 @@ def gen_iset(rng, world, lib, depth, err=0.0):
 class Lib:
     def __init__(self, name, imports, defs, exports):
         self.name, self.imports, self.defs, self.exports = name, imports, defs, exports   # exports: [(ext, int)]
+        # round 4: library DECLARATIONS under cond-expand / in an included file (lib/meta-7.scm evaluates the declarations of define-library in
+        # the meta environment, where cond-expand is the macro of lib/init-7.scm and include is a meta-primitive of eval-module)
+        self.ce = None          # dict(kind="begin"|"export", what=<def name | (ext, int)>, clauses=[req | "else"], sel=index of the clause that holds)
+        self.inc = []           # plain definitions moved into the included file <lib>-inc.scm
+
+    def spec_str(self, e, m):
+        return e if e == m else "(rename %s %s)" % (m, e)
+
+    def ce_decl(self):
+        """the cond-expand declaration: the real declaration sits in clause number sel (every clause before it is false); all other
+        clauses hold decoys -- a wrong value for the definition / an export of the private h1"""
+        t, c = self.tag, self.ce
+        out = []
+        for k, req in enumerate(c["clauses"]):
+            if c["kind"] == "begin":
+                body = "(begin (define %s (list 'v14val '%s '%s)))" % (c["what"], t, c["what"] if k == c["sel"] else "ce-decoy")
+            else:
+                body = "(export %s)" % (self.spec_str(*c["what"]) if k == c["sel"] else "h1")
+            out.append("(%s %s)" % ("else" if req == "else" else ce_str(req), body))
+        return "(cond-expand %s)" % " ".join(out)
+
+    def inc_text(self):
+        return "".join("(define %s (list 'v14val '%s '%s))\n" % (d, self.tag, d) for d in self.inc)
 
     @property
     def tag(self):
@@ -162,7 +188,9 @@ class Lib:
 
     def sld(self):
         t = self.tag
-        ex = " ".join(e if e == m else "(rename %s %s)" % (m, e) for e, m in self.exports)
+        ce_export = self.ce["what"] if self.ce and self.ce["kind"] == "export" else None
+        ce_def = self.ce["what"] if self.ce and self.ce["kind"] == "begin" else None
+        ex = " ".join(self.spec_str(e, m) for e, m in self.exports if (e, m) != ce_export)
         body = ['(write-string "BODY %s\\n")' % t, "(define tick-n 0)"]
         if "tick" in self.defs:
             body += ["(define ctr (list 'v14ctr '%s 0))" % t,
@@ -184,25 +212,71 @@ class Lib:
         if "lit" in self.defs:
             body.append("(define-syntax lit (syntax-rules () ((_ . r) '(v14mac %s lit))))" % t)
         if "mlit" in self.defs:
-            body.append("(define-syntax mlit (syntax-rules (lit else =>) ((_ lit) '(v14lit %s lit)) ((_ else) '(v14lit %s else)) ((_ =>) '(v14lit %s =>)) "
-                        "((_ x) '(v14lit %s no)) ((_ . r) '(v14mac %s mlit))))" % (t, t, t, t, t))
+            body.append("(define-syntax mlit (syntax-rules (lit else => ulit) ((_ lit) '(v14lit %s lit)) ((_ else) '(v14lit %s else)) ((_ =>) '(v14lit %s =>)) "
+                        "((_ ulit) '(v14lit %s ulit)) ((_ x) '(v14lit %s no)) ((_ . r) '(v14mac %s mlit))))" % (t, t, t, t, t, t))
         if "elit" in self.defs:
             body.append("(define-syntax elit (er-macro-transformer (lambda (form rename compare) (if (and (pair? (cdr form)) (null? (cddr form))) "
                         "(list (rename 'quote) (list 'v14lit '%s (cond ((compare (cadr form) (rename 'lit)) 'lit) ((compare (cadr form) (rename 'else)) 'else) "
-                        "((compare (cadr form) (rename '=>)) '=>) (else 'no)))) (list (rename 'quote) '(v14mac %s elit))))))" % (t, t))
+                        "((compare (cadr form) (rename '=>)) '=>) ((compare (cadr form) (rename 'ulit)) 'ulit) (else 'no)))) (list (rename 'quote) '(v14mac %s elit))))))" % (t, t))
         for d in self.defs:
-            if d not in ("tick", "ctr") and d not in MACRO_DEFS:
+            if d not in ("tick", "ctr") and d not in MACRO_DEFS and d != ce_def and d not in self.inc:
                 body.append("(define %s (list 'v14val '%s '%s))" % (d, t, d))
         chibi = " (only (chibi) sc-macro-transformer er-macro-transformer make-syntactic-closure)" if any(w in self.defs for w in WRAPPERS + ["elit"]) else ""
-        return "(define-library (%s)\n  (export %s)\n  (import (scheme base)%s%s)\n  (begin\n    %s))\n" % (
-            " ".join(self.name), ex, chibi, "".join(" " + iset_str(i) for i in self.imports), "\n    ".join(body))
+        extra = ""
+        if self.inc:
+            extra += "\n  (include \"%s-inc.scm\")" % self.name[-1]
+        if self.ce:
+            extra += "\n  " + self.ce_decl()
+        return "(define-library (%s)\n  (export %s)\n  (import (scheme base)%s%s)\n  (begin\n    %s)%s)\n" % (
+            " ".join(self.name), ex, chibi, "".join(" " + iset_str(i) for i in self.imports), "\n    ".join(body), extra)
 
 
 def sb_graph_sexp():
     return "((scheme base) () (%s) (%s))" % (" ".join(KW), " ".join("(%s %s)" % (k, k) for k in KW))
 
 
-def gen_graph(rng, gid, nlibs):
+def gen_ce_req(rng, features, gid, libs, want):
+    """a feature requirement whose truth (python rendering of CondExpand.holds) is want; library requirements name earlier libraries of
+    the graph (they exist) or missing ones"""
+    names = set(iset_str(("lib", l.name)) for l in libs)
+    for _ in range(30):
+        f = gen_ce_feature(rng, features, gid, libs, rng.choice([0, 1, 1, 2, 3]))
+        if ce_holds(f, features, names) == want:
+            return f
+    return ("not", "c14-no-such-feature") if want else "c14-no-such-feature"
+
+
+def gen_decl_plan(rng, lib, libs, features, gid):
+    """round 4: put one declaration of the library under cond-expand and/or move plain definitions into an included file"""
+    plain = [d_ for d_ in lib.defs if d_ not in ("tick", "ctr", "h1", "q") and d_ not in MACRO_DEFS]
+    if plain and rng.random() < 0.3:
+        lib.inc = rng.sample(plain, min(len(plain), rng.choice([1, 1, 2])))
+    if rng.random() < 0.45:
+        rest = [d_ for d_ in plain if d_ not in lib.inc]
+        kind = rng.choice(["begin", "export"])
+        what = None
+        if kind == "begin" and rest:
+            what = rng.choice(rest)
+        elif lib.exports:
+            kind, what = "export", rng.choice(lib.exports)
+        if what is not None:
+            clauses = [gen_ce_req(rng, features, gid, libs, False) for _ in range(rng.choice([0, 0, 1, 2]))]
+            sel = len(clauses)
+            clauses.append("else" if rng.random() < 0.3 else gen_ce_req(rng, features, gid, libs, True))
+            if clauses[-1] != "else":
+                for _ in range(rng.choice([0, 0, 1])):
+                    clauses.append(gen_ce_req(rng, features, gid, libs, rng.random() < 0.5))      # after the first true clause: never selected
+                if rng.random() < 0.4:
+                    clauses.append("else")
+            lib.ce = dict(kind=kind, what=what, clauses=clauses, sel=sel)
+            if kind == "export":
+                # the module's export list is built declaration by declaration: the export under cond-expand comes after the main list
+                # (the order of the id list %resolve-import returns, compared by the inner correspondence); same list object as the world's
+                lib.exports.remove(what)
+                lib.exports.append(what)
+
+
+def gen_graph(rng, gid, nlibs, features=None):
     libs, world = [], {SB: [(k, k) for k in KW]}
     for j in range(nlibs):
         name = ("v14", gid, "l%d" % j)
@@ -236,7 +310,7 @@ def gen_graph(rng, gid, nlibs):
         for m in chosen:
             e = m
             if rng.random() < 0.35:
-                e = rng.choice(NAMES + EXTRA_TARGETS + [c for c in chosen if c not in KW])        # may swap with another export
+                e = rng.choice(NAMES + EXTRA_TARGETS + ["ulit"] + [c for c in chosen if c not in KW])        # may swap with another export
             if e in used:
                 e = m
             if e in used:
@@ -251,25 +325,38 @@ def gen_graph(rng, gid, nlibs):
                     used.add(e)
                     exports.append((e, k))
         lib = Lib(name, imports, defs, exports)
+        if features:
+            gen_decl_plan(rng, lib, libs, features, gid)
         libs.append(lib)
         world[name] = exports
     return libs, world
 
 
-def py_origin(libs, world, lib, m, fuel=8):
-    """generator-side guess of the definition behind internal name m of library lib (shapes inputs only)"""
+AMBIGUOUS = (("?",), "A")
+
+
+def py_origins(libs, world, lib, m, fuel=8):
+    """generator-side guess of the definitions internal name m of library lib may denote: ALL of them when the library binds the name more
+    than once (defined and imported, or imported through two import sets -- "an error" in R7RS; chibi lets the later one win)"""
     if tuple(lib) == SB:
-        return (SB, m) if m in KW else None
+        return {(SB, m)} if m in KW else set()
     L = next((l for l in libs if l.name == lib), None)
     if L is None or fuel == 0:
-        return None
+        return set()
+    out = set()
     if m in L.defs:
-        return (lib, m)
+        out.add((lib, m))
     for i in [("lib", SB)] + L.imports:
         for n, mm in (py_denote(world, i) or []):
             if n == m:
-                return py_origin(libs, world, iset_lib(i), mm, fuel - 1)
-    return None
+                out |= py_origins(libs, world, iset_lib(i), mm, fuel - 1)
+    return out
+
+
+def py_origin(libs, world, lib, m, fuel=8):
+    """the single definition behind internal name m of library lib, None, or AMBIGUOUS (shapes inputs only, never a verdict)"""
+    s = py_origins(libs, world, lib, m, fuel)
+    return None if not s else (next(iter(s)) if len(s) == 1 else AMBIGUOUS)
 
 
 def gen_closed_case(rng, libs, world):
@@ -380,8 +467,11 @@ def py_class(libs, world, isets, n):
     for i in isets:
         for a, m in (py_denote(world, i) or []):
             if a == n:
-                o = py_origin(libs, world, iset_lib(i), m)
-                found.add("U" if o is None else (o[1] if tuple(o[0]) == SB else ("macro" if o[1] in MACRO_DEFS else "var")))
+                os_ = py_origins(libs, world, iset_lib(i), m)
+                if not os_:
+                    found.add("U")
+                for o in os_:
+                    found.add(o[1] if tuple(o[0]) == SB else ("macro" if o[1] in MACRO_DEFS else "var"))
     if not found:
         return "U"
     return found.pop() if len(found) == 1 else "A"
@@ -529,7 +619,7 @@ def run_driver(d, moddir, casefile, timeout=300):
     except subprocess.TimeoutExpired as e:
         out = e.stdout.decode() if isinstance(e.stdout, bytes) else (e.stdout or "")
         rc, err = "TIMEOUT", ""
-    res, bodies, done = {}, [], False
+    res, bodies, done, tainted = {}, [], False, None
     for line in out.split("\n"):
         if done:
             break        # (after an error caught from inside a macro transformer the pinned chibi re-runs the program tail at exit: ignore it)
@@ -538,9 +628,11 @@ def run_driver(d, moddir, casefile, timeout=300):
             res.setdefault(int(line[5:sp]), line[sp + 1:])
         elif line.startswith("BODY "):
             bodies.append(line[5:].strip())
+        elif line.startswith("TAINTED "):
+            tainted = int(line[8:].strip())
         elif line == "DONE":
             done = True
-    return res, bodies, done, rc, err
+    return res, bodies, done, rc, err, tainted
 
 
 def replay_cmd(d, moddir, isets, name, top=False):
@@ -559,12 +651,51 @@ MALFORMED = ["foo", "()", "(only)", "(except)", "(prefix {L})", "(drop-prefix {L
              "((only) a)", "(only \"str\" a)", "(prefix {L} \"p\")"]
 
 
+IDEQ_SOURCE = (
+    "sexp sexp_identifier_eq_op (sexp ctx, sexp self, sexp_sint_t n, sexp e1, sexp id1, sexp e2, sexp id2) { sexp cell1, cell2; "
+    "sexp_assert_type(ctx, sexp_envp, SEXP_ENV, e1); sexp_assert_type(ctx, sexp_envp, SEXP_ENV, e2); "
+    "cell1 = sexp_env_cell(ctx, e1, id1, 0); cell2 = sexp_env_cell(ctx, e2, id2, 0); "
+    "if (cell1 && (sexp_cdr(cell1) == SEXP_UNDEF)) cell1 = NULL; if (cell2 && (sexp_cdr(cell2) == SEXP_UNDEF)) cell2 = NULL; "
+    "if (cell1 && (cell1 == cell2)) return SEXP_TRUE; else if (!cell1 && !cell2 && (id1 == id2)) return SEXP_TRUE; "
+    "while (sexp_synclop(id1)) id1 = sexp_synclo_expr(id1); while (sexp_synclop(id2)) id2 = sexp_synclo_expr(id2); "
+    "if ((id1 == id2) && ((!cell1 && !cell2) "
+    "#if !SEXP_USE_STRICT_TOPLEVEL_BINDINGS "
+    "|| ((!cell1 || (!sexp_lambdap(sexp_cdr(cell1)) && !sexp_env_cell_syntactic_p(cell1))) && (!cell2 || (!sexp_lambdap(sexp_cdr(cell2)) && !sexp_env_cell_syntactic_p(cell2)))) "
+    "#endif "
+    ")) return SEXP_TRUE; return SEXP_FALSE; }")
+
+
+def check_ideq_source(ctx):
+    """(G, by comparison) IdEq.identifier_eq mirrors sexp_identifier_eq_op of a STRICT build: the function's text (comments and layout
+    removed) must be the one the model was written from, and SEXP_USE_STRICT_TOPLEVEL_BINDINGS must default to 1.  Fails closed."""
+    import re
+    try:
+        ev = open(os.path.join(B.REPO, "eval.c")).read()
+        ft = open(os.path.join(B.REPO, "include", "chibi", "features.h")).read()
+    except OSError as e:
+        ctx.broken("gen:sexp_identifier_eq_op", "source not readable: %s" % e)
+        return
+    m = re.search(r"^sexp sexp_identifier_eq_op \(.*?^}", ev, re.S | re.M)
+    body = re.sub(r"\s+", " ", re.sub(r"/\*.*?\*/", " ", m.group(0), flags=re.S)).strip() if m else ""
+    if body != IDEQ_SOURCE:
+        ctx.broken("gen:sexp_identifier_eq_op", "eval.c sexp_identifier_eq_op is not the text coq/C14/IdEq.v models (the repaired strict function; "
+                   "fixes/C14-identifier-eq-undefined-cell.patch applied?): %s" % body[:700])
+    nocomment = re.sub(r"/\*.*?\*/", " ", ft, flags=re.S)
+    dm = re.search(r"#ifndef SEXP_USE_STRICT_TOPLEVEL_BINDINGS\s*#define SEXP_USE_STRICT_TOPLEVEL_BINDINGS (\d+)\s*#endif", nocomment)
+    early = re.search(r"^\s*#\s*define\s+SEXP_USE_STRICT_TOPLEVEL_BINDINGS\b", nocomment[:dm.start()] if dm else nocomment, re.M)
+    if not dm or dm.group(1) != "1" or early:
+        ctx.broken("gen:strict-toplevel-bindings", "include/chibi/features.h no longer defaults SEXP_USE_STRICT_TOPLEVEL_BINDINGS to 1: IdEq.identifier_eq "
+                   "models the strict function (names are compared only when neither identifier has a binding)")
+
+
 def run(ctx):
     rng = ctx.rng
     thorough = ctx.thorough
     n_graphs, n_env, n_res, n_sc = (36, 26, 14, 6) if not thorough else (400, 60, 30, 16)
-    n_imp, n_lit = (4, 4) if not thorough else (10, 10)
-    n_ce = 5 if not thorough else 20
+    # round 4: the quick tier SAMPLES the round-3 streams per graph (3 of the 4 importer kinds, 3 literal programs, 4 clause lists, one or
+    # two second standard environments); every stream still runs on every graph, the thorough tier keeps the full volume
+    n_imp, n_lit = (3, 3) if not thorough else (10, 10)
+    n_ce = 4 if not thorough else 20
     ctx.cov["rule"] = ("outer: generated library graphs (1-6 libraries; exports with (rename a b) incl. swaps; libraries importing and re-exporting "
                        "through their own import sets; every body prints once and owns a counter; a macro expanding into a private helper) are written "
                        "to a scratch module directory; per graph one chibi process builds environments from import sets of nesting depth 0-4 "
@@ -585,15 +716,27 @@ def run(ctx):
                        "distinct by (graph shape, imports, wrapper kinds, template, name).  thorough adds the enumeration of "
                        "all import sets of depth <= 2 over a 4-name library with swapped renamed exports (11+ id lists, 8 rename lists, 3 prefixes).")
     # ------------------------------------------------------------------ (G) + (T)
+    split = ctx.cov.setdefault("wall_split_s", {})
+    t0 = time.time()
+
+    def lap(key):
+        nonlocal t0
+        t1 = time.time()
+        split[key] = round(split.get(key, 0.0) + t1 - t0, 1)
+        t0 = t1
     gen_ok = G.regen(ctx)
     ce_ok = G.regen_cond_expand(ctx)
     gen_ok = gen_ok and ce_ok
+    check_ideq_source(ctx)
     ctx.coq_obligations("Properties_C14")
+    lap("coq")
     d = ctx.build("default")
+    lap("build")
     spec_exe = extract(ctx, "C14")
     if spec_exe is None:
         return
     gen_exe = extract(ctx, "C14gen") if gen_ok else None
+    lap("extract")
     moddir = os.path.join(B.SCRATCH, "c14mods_%s_%d" % (ctx.tier, ctx.seed))
     shutil.rmtree(moddir, ignore_errors=True)
     os.makedirs(moddir)
@@ -615,7 +758,7 @@ def run(ctx):
     graphs = []
     for g in range(n_graphs):
         gid = "g%d" % g
-        libs, world = gen_graph(rng, gid, rng.choice([1, 2, 3, 3, 4, 5, 6]))
+        libs, world = gen_graph(rng, gid, rng.choice([1, 2, 3, 3, 4, 5, 6]), features)
         graphs.append(dict(gid=gid, libs=libs, world=world, cases=[], kind="random"))
     if thorough:
         libs, world = tiny_graph("gt")
@@ -627,6 +770,10 @@ def run(ctx):
         os.makedirs(gdir)
         for lib in libs:
             open(os.path.join(gdir, lib.name[-1] + ".sld"), "w").write(lib.sld())
+            if lib.inc:
+                open(os.path.join(gdir, lib.name[-1] + "-inc.scm"), "w").write(lib.inc_text())
+            if lib.inc or lib.ce:
+                ctx.cov["libraries_with_cond_expand_or_include_declarations"] = ctx.cov.get("libraries_with_cond_expand_or_include_declarations", 0) + 1
         cases = gr["cases"]
         if gr["kind"] == "enum":
             for i in enum_isets(world, libs[0].name, 2):
@@ -641,8 +788,8 @@ def run(ctx):
                 cases.append(dict(kind="env", isets=isets, names=_candidates(rng, world, isets, libs=libs)))
             # round 3: the same import sets brought in by OTHER kinds of importer, in the driver's own top-level environment, under a prefix
             # that is unique to the case: (eval '(import ...) (interaction-environment)), (load file env), (load port env), (include file)
-            for c in range(n_imp):
-                kind = rng.choice(IMPORTER_KINDS)
+            imp_kinds = rng.sample(IMPORTER_KINDS, n_imp) if n_imp <= len(IMPORTER_KINDS) else [rng.choice(IMPORTER_KINDS) for _ in range(n_imp)]
+            for kind in imp_kinds:
                 pfx = "k%d%s:" % (len(cases), kind[0])
                 isets = [("prefix", gen_iset(rng, world, rng.choice(libs).name, rng.choice([0, 1, 1, 2, 3]), err=0.08), pfx)]
                 cases.append(dict(kind="env", importer=kind, isets=isets, names=_candidates(rng, world, isets, libs=libs, limit=20)))
@@ -665,6 +812,12 @@ def run(ctx):
             for c in range(n_ce if features else 0):
                 cl = gen_ce_clauses(rng, features, gr["gid"], libs)
                 cases.append(dict(kind="condexp", clauses=cl, text=" ".join(ce_clause_str(x) for x in cl)))
+            for lib in libs:
+                if lib.ce:
+                    # the clause list of the library's own cond-expand DECLARATION, as an expression: the translated code (proved = holds),
+                    # the python rendering that placed the real declaration, and chibi must select the same clause
+                    cl = [(req, "c%d" % k) for k, req in enumerate(lib.ce["clauses"])]
+                    cases.append(dict(kind="condexp", clauses=cl, text=" ".join(ce_clause_str(x) for x in cl), expect="c%d" % lib.ce["sel"]))
             for t in corpus:
                 t2 = t.replace("{L}", iset_str(("lib", libs[0].name))).replace("{E}", libs[0].exports[0][0] if libs[0].exports else "a")
                 cases.append(dict(kind="resolve", text=t2, iset=parse_iset(t2)))
@@ -705,7 +858,7 @@ def run(ctx):
                 top["lit"] = lit_plan(rng, libs, world, [("lib", SB)] + top["isets"], limit=24)
             # second standard environments (b3): import sets loaded into (scheme-report-environment n) at the END of the program
             top["std"] = [dict(how=h, isets=[gen_iset(rng, world, rng.choice(libs).name, rng.choice([0, 0, 1, 2]), err=0.0)])
-                          for h in rng.sample(STD_KINDS, 2)]
+                          for h in rng.sample(STD_KINDS, 2 if (thorough or rng.random() < 0.5) else 1)]
 
     # ------------------------------------------------------------------ oracle: one batch per model
     spec_req, gen_req = [], []
@@ -714,7 +867,7 @@ def run(ctx):
         gr["inside_ix"] = {}
         for l in gr["libs"]:
             gr["inside_ix"][l.tag] = len(spec_req)
-            spec_req.append("inside %s (lit else =>)" % iset_str(("lib", l.name)))
+            spec_req.append("inside %s (%s)" % (iset_str(("lib", l.name)), " ".join(LIT_NAMES)))
         gen_req.append("world " + " ".join("(%s (%s))" % (iset_str(("lib", l.name)), " ".join(
             sym(e) if e == m else "(%s . %s)" % (sym(e), sym(m)) for e, m in l.exports)) for l in gr["libs"]))
         if "ldefs" in gr:
@@ -764,8 +917,14 @@ def run(ctx):
             else:
                 c["gen_ix"] = len(gen_req)
                 gen_req.append("%s %s %s" % (c["kind"], sym(c["a"]), sym(c["b"])))
+    lap("generate")
     spec_out = ctx.run_model(spec_exe, spec_req)
     gen_out = ctx.run_model(gen_exe, gen_req) if gen_exe else None
+    lap("model")
+    if os.environ.get("C14_DUMP"):
+        with open(os.environ["C14_DUMP"], "w") as fh:
+            for a, b in zip(spec_req, spec_out):
+                fh.write(a + "\n  => " + b + "\n")
     for gr in graphs:
         for c in gr["cases"]:
             if c.get("stacks") is not None:
@@ -777,14 +936,36 @@ def run(ctx):
                     elif "NOTMACRO" not in spec_out[ix] and "E" not in spec_out[c["spec_ix"]].split(" "):
                         ctx.broken("spec-driver", "closed answered %r" % spec_out[ix][:200])
                 c["live"] = live
+            if c["kind"] in ("env", "envsc", "top") and "spec_ix" in c:
+                # A name that -- by the SPEC or, through the standing leak F-C14-2, by the model of the code -- denotes an auxiliary KEYWORD of
+                # (scheme base) (in the program, or in the user-code position of some stack) is not probed in this case: calling or evaluating
+                # it raises inside the keyword's transformer (F-C06-1, see harness/c14_driver.scm "sentinel").  E.g. the macro library
+                # privately imports (rename unquote b): b, unbound in the program, would leak to unquote inside wif.  (The generator's own
+                # guess kw_visible already avoids most of them when the names are drawn; the SPEC has the last word.)
+                live = c.get("live", [])
+                toks = spec_out[c["spec_ix"]].split(" ")
+                if len(toks) == len(c["names"]):
+                    kwp = "O:%s:" % SB_TAG
+                    keep = [i for i, t in enumerate(toks) if not (t.startswith(kwp) or any(l["model"][i].startswith(kwp) for l in live))]
+                    if len(keep) != len(toks):
+                        ctx.cov["keyword_names_not_probed"] = ctx.cov.get("keyword_names_not_probed", 0) + len(toks) - len(keep)
+                        c["names"] = [c["names"][i] for i in keep]
+                        c["spec_toks"] = [toks[i] for i in keep]
+                        for l in live:
+                            l["model"] = [l["model"][i] for i in keep]
     if gen_exe is None:
         ctx.note("inner correspondence skipped: the translated code could not be regenerated / extracted")
 
     # ------------------------------------------------------------------ implementation + verdicts
     sampled = 0
     deaths = 0
+    probe_text = open(os.path.join(ROOT, "harness", "c14_driver.scm")).read().split(";;; BEGIN PROBE")[1].split(";;; END PROBE")[0]
     for gr in graphs:
-        casefile = os.path.join(moddir, "cases_%s.scm" % gr["gid"])
+        casefile = gr["casefile"] = os.path.join(moddir, "cases_%s.scm" % gr["gid"])
+        glibs = {l.tag: l for l in gr["libs"]}
+        for n, c in enumerate(gr["cases"]):
+            if c["kind"] == "top":
+                c["prog"] = _write_top_program(moddir, gr, n, c, spec_out, glibs, probe_text)
         with open(casefile, "w") as fh:
             for n, c in enumerate(gr["cases"]):
                 if c["kind"] == "top":
@@ -814,12 +995,40 @@ def run(ctx):
                     fh.write("(resolve %d %s)\n" % (n, c["text"]))
                 else:
                     fh.write("(%s %d %s %s)\n" % (c["kind"], n, sym(c["a"]), sym(c["b"])))
+    # the chibi processes (one driver per graph, one per top-level program) are independent of each other: run them on a small pool,
+    # judge in graph order (results do not depend on the scheduling; after 3 dead/hung drivers the remaining ones are cancelled)
+    import concurrent.futures
+    pool = concurrent.futures.ThreadPoolExecutor(max_workers=3)
+    top_env = {"CHIBI_MODULE_PATH": os.path.join(d, "lib") + ":" + moddir}
+    for gr in graphs:
+        gr["fut"] = pool.submit(run_driver, d, moddir, gr["casefile"], 300 if thorough else 45)
+        for c in gr["cases"]:
+            if c["kind"] == "top":
+                c["fut"] = pool.submit(B.run_chibi, d, [c["prog"]], timeout=60, extra_env=top_env)
+    lap("generate")
+    for gr in graphs:
+        casefile = gr["casefile"]
         if deaths >= 3:
             ctx.note("stopped after 3 graphs on which the chibi process died or hung; remaining graphs not run")
+            for g2 in graphs:
+                g2["fut"].cancel()
+                for c in g2["cases"]:
+                    if "fut" in c:
+                        c["fut"].cancel()
             break
-        res, bodies, done, rc, err = run_driver(d, moddir, casefile, timeout=300 if thorough else 45)
+        lap("judge")
+        res, bodies, done, rc, err, tainted = gr["fut"].result()
+        lap("driver")
         if not done:
             deaths += 1
+        if tainted is not None:
+            # F-C06-1 (known finding of C06): an error raised inside a macro transformer and caught by guard leaves the compile-time
+            # context -- with the free-names list of the closure under analysis -- as the running context; everything the process says
+            # from then on (imports of names called it / x in particular) is unreliable.  The generator must never cause it.
+            _report_taint(ctx, gr, gr["cases"][tainted], casefile)
+            # (the case that tainted the process is still judged: its answer line was built before and during the event -- on the unchanged
+            #  tree no case taints, under a breaking change this is where its failing input is; nothing after it is judged)
+            res = {n: v for n, v in res.items() if n <= tainted}
         libs = {l.tag: l for l in gr["libs"]}
         ticks = {t: 0 for t in libs}
         needed = set()
@@ -848,10 +1057,10 @@ def run(ctx):
                 _judge_lit(ctx, d, moddir, gr, c, c, got, spec_out, False)
                 continue
             if c["kind"] == "envsc":
-                _judge_closed(ctx, d, moddir, gr, c, got, spec_out[c["spec_ix"]].split(" "), libs, ticks, needed)
+                _judge_closed(ctx, d, moddir, gr, c, got, _spec_toks(c, spec_out), libs, ticks, needed)
                 continue
             if c["kind"] in ("env", "top"):
-                _judge_outer(ctx, d, moddir, gr, c, got, spec_out[c["spec_ix"]].split(" "), libs, ticks, needed)
+                _judge_outer(ctx, d, moddir, gr, c, got, _spec_toks(c, spec_out), libs, ticks, needed)
                 if sampled < 4 and iset_depth(c["isets"][0]) >= 2:
                     sampled += 1
                     ctx.sample(dict(kind="outer", imports=[iset_str(i) for i in c["isets"]], names=c["names"][:8],
@@ -865,46 +1074,16 @@ def run(ctx):
                     sampled += 1
                     ctx.sample(dict(kind="inner", request=c["text"], translated=gen_out[c["gen_ix"]], impl=res[n]))
         _check_bodies(ctx, d, moddir, gr, libs, bodies, needed, casefile)
-        if "ldefs" in gr and done:
+        if "ldefs" in gr and done and tainted is None:
             _judge_load(ctx, d, moddir, gr, spec_out[gr["hist_ix"]], bodies, casefile)
         # top-level (import ...) programs: one process each (repl-import path)
         for n, c in enumerate(gr["cases"]):
             if c["kind"] != "top":
                 continue
-            prog = os.path.join(moddir, "top_%s_%d.scm" % (gr["gid"], n))
-            probe = open(os.path.join(ROOT, "harness", "c14_driver.scm")).read().split(";;; BEGIN PROBE")[1].split(";;; END PROBE")[0]
-            text = "(import (scheme base) (scheme write) (scheme eval) (scheme repl) (scheme load) (scheme file) (only (chibi) scheme-report-environment) %s %s)\n%s\n" % (
-                SUPPORT, " ".join(iset_str(i) for i in c["isets"]), probe)
-            text += "(c14-out %d (c14-probe (interaction-environment) '(%s)))\n" % (n, " ".join(sym(x) for x in c["names"]))
-            text += "(c14-out %d (c14-probe-closed (interaction-environment) '(%s) '(%s)))\n" % (
-                n, " ".join(template(l["stack"]) for l in c.get("live", [])), " ".join(sym(x) for x in c["names"]))
-            if c.get("lit"):
-                lp = c["lit"]
-                text += "(c14-out %d (c14-probe-lit (interaction-environment) '(%s) '(%s)))\n" % (
-                    900000 + n, " ".join("(%s %s)" % (sym(x), " ".join(ks)) for x, ks in lp["plan"]), " ".join(sym(m) for m in lp["mls"]))
-            text += "(write-string \"DONE\\n\")\n"
-            # second standard environments, last (no guard works after the first one is made): each loads a file whose first form imports
-            # a library this program has (mostly) already imported; only names the SPEC says are bound are evaluated
-            for k, sd in enumerate(c.get("std", [])):
-                so = spec_out[sd["spec_ix"]].split(" ")
-                sd["probe"] = []
-                if len(so) == len(sd["names"]) and "E" not in so:
-                    for nm, o in zip(sd["names"], so):
-                        if o.startswith("O:") and o.split(":", 2)[1] in libs:
-                            m = o.split(":", 2)[2]
-                            sd["probe"].append((nm, o, "(%s)" % sym(nm) if (m == "tick" or m in MACRO_DEFS) else sym(nm)))
-                sfile = os.path.join(moddir, "std_%s_%d_%d.scm" % (gr["gid"], n, k))
-                open(sfile, "w").write("(import %s)\n(define c14-std-r (let* (%s) (list %s)))\n" % (
-                    " ".join(iset_str(i) for i in sd["isets"]), " ".join("(c14v%d %s)" % (q, e) for q, (_, _, e) in enumerate(sd["probe"])),
-                    " ".join("c14v%d" % q for q in range(len(sd["probe"])))))
-                ver = 5 if sd["how"].startswith("sre5") else 7
-                ld = ("(call-with-input-file \"%s\" (lambda (in) (load in c14-sre%d)))" if "port" in sd["how"] else "(load \"%s\" c14-sre%d)")
-                text += "(define c14-sre%d (scheme-report-environment %d))\n%s\n(c14-out %d (eval 'c14-std-r c14-sre%d))\n" % (k, ver, ld % (sfile, k), 910000 + 10 * k, k)
-                if sd["how"] == "sre7-twice":
-                    text += "(define c14-sre%db (scheme-report-environment 7))\n(load \"%s\" c14-sre%db)\n(c14-out %d (eval 'c14-std-r c14-sre%db))\n" % (k, sfile, k, 910000 + 10 * k + 1, k)
-            text += "(write-string \"END\\n\")\n"
-            open(prog, "w").write(text)
-            r = B.run_chibi(d, [prog], timeout=60, extra_env={"CHIBI_MODULE_PATH": os.path.join(d, "lib") + ":" + moddir})
+            prog = c["prog"]
+            lap("judge")
+            r = c["fut"].result()
+            lap("top-programs")
             tb = [l[5:].strip() for l in r.stdout.split("\n") if l.startswith("BODY ")]
             out_main = r.stdout.split("\nDONE\n")[0] if "\nDONE\n" in r.stdout else r.stdout
             allcase = [l for l in r.stdout.split("\nEND\n")[0].split("\n") if l.startswith("CASE ")]
@@ -921,7 +1100,10 @@ def run(ctx):
                               expected="the program runs", replay="chibi-scheme %s (module dir %s)" % (prog, moddir))
                 continue
             tticks, tneeded = {t: 0 for t in libs}, set()
-            _judge_outer(ctx, d, moddir, gr, c, got, spec_out[c["spec_ix"]].split(" "), libs, tticks, tneeded)
+            top_tainted = byid.get(990000, "#f").strip() != "#f"
+            if top_tainted:
+                _report_taint(ctx, gr, c, prog)
+            _judge_outer(ctx, d, moddir, gr, c, got, _spec_toks(c, spec_out), libs, tticks, tneeded)
             if len(line) > 1 and c.get("live"):
                 try:
                     got2 = norm(parse_datum(line[1].split(" ", 2)[2])[0])
@@ -929,7 +1111,7 @@ def run(ctx):
                     ctx.broken("correspondence:unreadable-output", "top program %s printed %r (%s)" % (prog, line[1][:200], e))
                     got2 = None
                 if got2 is not None:
-                    _judge_closed(ctx, d, moddir, gr, c, got2, spec_out[c["spec_ix"]].split(" "), libs, tticks, tneeded)
+                    _judge_closed(ctx, d, moddir, gr, c, got2, _spec_toks(c, spec_out), libs, tticks, tneeded)
             elif c.get("live") and line:
                 ctx.violation("driver-died", input=open(prog).read()[-400:], observed="rc=%s %s" % (r.returncode, (r.stderr or "")[-300:]),
                               expected="the program runs to its end", replay="chibi-scheme %s (module dir %s)" % (prog, moddir))
@@ -945,17 +1127,69 @@ def run(ctx):
                 else:
                     ctx.violation("driver-died", input=open(prog).read()[-400:], observed="rc=%s %s" % (r.returncode, (r.stderr or "")[-300:]),
                                   expected="the program runs to its end", replay="chibi-scheme %s (module dir %s)" % (prog, moddir))
-            if line and "\nDONE\n" in r.stdout:
+            if line and "\nDONE\n" in r.stdout and not top_tainted:
                 _judge_std(ctx, d, moddir, gr, c, byid, r, prog, libs, tticks, tneeded)
             _check_bodies(ctx, d, moddir, gr, libs, tb, tneeded, prog, top=True)
 
 
+    lap("judge")
+    pool.shutdown(wait=False)
     if not ctx.cov.get("standing_leak_cases"):
         ctx.note("the standing leak F-C14-2 (names of the macro library visible in free-names closures) was not observed in this run")
     if os.environ.get("C14_DEBUG"):
         with open(os.environ["C14_DEBUG"], "w") as fh:
             for u in ctx.unproved:
                 fh.write(repr(u)[:1500] + "\n")
+
+
+def _write_top_program(moddir, gr, n, c, spec_out, libs, probe):
+    """the text of one top-level (import ...) program (own process): outer probes, closed probes, literal probes, taint sentinel, DONE,
+    then the second-standard-environment sections; returns the path"""
+    prog = os.path.join(moddir, "top_%s_%d.scm" % (gr["gid"], n))
+    text = "(import (scheme base) (scheme write) (scheme eval) (scheme repl) (scheme load) (scheme file) (only (chibi) scheme-report-environment identifier=? current-environment) %s %s)\n%s\n" % (
+        SUPPORT, " ".join(iset_str(i) for i in c["isets"]), probe)
+    text += "(c14-out %d (c14-probe (interaction-environment) '(%s)))\n" % (n, " ".join(sym(x) for x in c["names"]))
+    text += "(c14-out %d (c14-probe-closed (interaction-environment) '(%s) '(%s)))\n" % (
+        n, " ".join(template(l["stack"]) for l in c.get("live", [])), " ".join(sym(x) for x in c["names"]))
+    if c.get("lit"):
+        lp = c["lit"]
+        text += "(c14-out %d (c14-probe-lit (interaction-environment) '(%s) '(%s)))\n" % (
+            900000 + n, " ".join("(%s %s)" % (sym(x), " ".join(ks)) for x, ks in lp["plan"]), " ".join(sym(m) for m in lp["mls"]))
+    text += "(c14-out 990000 (c14-tainted?))\n(write-string \"DONE\\n\")\n"
+    # second standard environments, last (no guard works after the first one is made): each loads a file whose first form imports
+    # a library this program has (mostly) already imported; only names the SPEC says are bound are evaluated
+    for k, sd in enumerate(c.get("std", [])):
+        so = spec_out[sd["spec_ix"]].split(" ")
+        sd["probe"] = []
+        if len(so) == len(sd["names"]) and "E" not in so:
+            for nm, o in zip(sd["names"], so):
+                if o.startswith("O:") and o.split(":", 2)[1] in libs:
+                    m = o.split(":", 2)[2]
+                    sd["probe"].append((nm, o, "(%s)" % sym(nm) if (m == "tick" or m in MACRO_DEFS) else sym(nm)))
+        sfile = os.path.join(moddir, "std_%s_%d_%d.scm" % (gr["gid"], n, k))
+        open(sfile, "w").write("(import %s)\n(define c14-std-r (let* (%s) (list %s)))\n" % (
+            " ".join(iset_str(i) for i in sd["isets"]), " ".join("(c14v%d %s)" % (q, e) for q, (_, _, e) in enumerate(sd["probe"])),
+            " ".join("c14v%d" % q for q in range(len(sd["probe"])))))
+        ver = 5 if sd["how"].startswith("sre5") else 7
+        ld = ("(call-with-input-file \"%s\" (lambda (in) (load in c14-sre%d)))" if "port" in sd["how"] else "(load \"%s\" c14-sre%d)")
+        text += "(define c14-sre%d (scheme-report-environment %d))\n%s\n(c14-out %d (eval 'c14-std-r c14-sre%d))\n" % (k, ver, ld % (sfile, k), 910000 + 10 * k, k)
+        if sd["how"] == "sre7-twice":
+            text += "(define c14-sre%db (scheme-report-environment 7))\n(load \"%s\" c14-sre%db)\n(c14-out %d (eval 'c14-std-r c14-sre%db))\n" % (k, sfile, k, 910000 + 10 * k + 1, k)
+    text += "(write-string \"END\\n\")\n"
+    open(prog, "w").write(text)
+    return prog
+
+
+def _report_taint(ctx, gr, c, where):
+    ctx.broken("harness:error-inside-macro-transformer",
+               "a probe of the case (%s; imports %s) raised inside a macro transformer; the pinned chibi then keeps running inside the nested "
+               "sexp_apply with the compile-time context (F-C06-1), whose free-names list redirects later lookups of it / x: the rest of the "
+               "process %s was not judged" % (c["kind"], " ".join(iset_str(i) for i in c.get("isets", [])), where))
+
+
+def _spec_toks(c, spec_out):
+    """SPEC origins of c["names"] (filtered together with the names, see the keyword-leak filter in run)"""
+    return c["spec_toks"] if "spec_toks" in c else spec_out[c["spec_ix"]].split(" ")
 
 
 def _check_bodies(ctx, d, moddir, gr, libs, bodies, needed, casefile, top=False):
@@ -1022,9 +1256,8 @@ def kw_visible(libs, world, isets):
     out = set()
     for i in isets:
         for n, m in (py_denote(world, i) or []):
-            o = py_origin(libs, world, iset_lib(i), m)
-            if o and tuple(o[0]) == SB:
-                out.add(n)
+            if any(tuple(o[0]) == SB for o in py_origins(libs, world, iset_lib(i), m)):
+                out.add(n)                     # (conservative: also when only ONE of several bindings of the name is a keyword)
     return out
 
 
@@ -1038,6 +1271,8 @@ def _candidates(rng, world, isets, limit=34, libs=(), keep_kw=False):
     extra = list(NAMES) + ["tick", "ctr", "m1"] + PRIVATE + [""] + WRAPPERS + LITS
     if keep_kw:
         extra += KW + KW_ALIASES
+        if "ulit" not in vis:
+            vis.append("ulit")                 # always probed in literal cases (bound or not)
     for i in isets:
         j = i
         while j[0] != "lib":
@@ -1142,6 +1377,12 @@ def _judge_outer(ctx, d, moddir, gr, c, got, spec, libs, ticks, needed):
                       observed=repr(g), replay=replay_cmd(d, moddir, isets, name, top))
 
 
+def _dbg(*a):
+    if os.environ.get("C14_DEBUG_CARVE"):
+        with open(os.environ["C14_DEBUG_CARVE"], "a") as fh:
+            fh.write(repr(a) + "\n")
+
+
 _leak_registered = None
 
 
@@ -1242,23 +1483,11 @@ def _judge_closed(ctx, d, moddir, gr, c, got, spec, libs, ticks, needed):
                                           expected="unbound (the program does not import %s)" % name, observed=repr(g),
                                           replay=replay_closed(d, moddir, isets, tmpl, name, top))
                         continue
-                    if not top and (name in ("x", "it") or (isinstance(g, tuple) and len(g) == 3 and g[0] == "v14val" and g[2] in ("x", "it"))):
-                        # (same open issue as free_name_cell_masked below: process-state dependent results around the cells of the names that
-                        #  wrappers declare free)
-                        ctx.cov["free_name_cell_masked"] = ctx.cov.get("free_name_cell_masked", 0) + 1
-                        continue
                     ctx.violation(sigbase + "unexpectedly-bound" + form, input=inp, name=name, graph=graph,
                                   wrappers=kinds, expected="unbound (not in the program's import sets)%s" % ("" if mtok == "U" else "; the known leak would give %s" % mtok),
                                   observed=repr(g), replay=replay_closed(d, moddir, isets, tmpl, name, top))
                     continue
                 if g == exp:
-                    continue
-                if g == "unbound" and (name in ("x", "it") or m in ("x", "it")) and not top:
-                    # round 3 (open issue, see notes): a name that some wrapper of the graph declares FREE (x for wifx, it) and that an EARLIER case
-                    # of the same process probed inside such a wrapper can afterwards come back unbound inside other wrappers although the
-                    # program imports it (process-state dependent: the isolated replay is right; an undefined cell was created for it in the
-                    # macro library's environment).  Same family as standing_leak_masked; counted, not judged.
-                    ctx.cov["free_name_cell_masked"] = ctx.cov.get("free_name_cell_masked", 0) + 1
                     continue
                 if g == "unbound":
                     cls = "unbound"
@@ -1358,12 +1587,14 @@ LIT_FORMS = {"ce": "(cond (#f 0) (<> 'c14-else))", "ca": "(cond ('(7) <> car) (#
              "us": "(let-syntax ((c14m (syntax-rules () ((c14m <>) '(<>)) ((c14m . c14r) 'c14-nomatch)))) (c14m 1))", "uq": "(quasiquote (1 (<> 7)))"}
 
 
-def replay_lit(d, moddir, isets, form, top):
+def replay_lit(d, moddir, isets, form, top, pre=None):
+    """pre: an (unbound) variable the program refers to first -- (define (c14-f) pre) compiles a reference without running it"""
     imports = " ".join(iset_str(i) for i in isets)
     if top:
-        prog = "(import (scheme base) (scheme write) %s) (write %s)" % (imports, form)
+        prog = "(import (scheme base) (scheme write) %s) %s(write %s)" % (imports, "(define (c14-f) %s) " % pre if pre else "", form)
     else:
-        prog = "(import (scheme base) (scheme write) (scheme eval)) (write (eval '%s (environment '(scheme base) %s)))" % (form, " ".join("'" + iset_str(i) for i in isets))
+        prog = "(import (scheme base) (scheme write) (scheme eval)) (define c14-e (environment '(scheme base) %s)) %s(write (eval '%s c14-e))" % (
+            " ".join("'" + iset_str(i) for i in isets), "(eval '(define (c14-f) %s) c14-e) " % pre if pre else "", form)
     return "echo \"%s\" > /var/tmp/c14-replay.scm; LD_LIBRARY_PATH=%s CHIBI_IGNORE_SYSTEM_PATH=1 CHIBI_MODULE_PATH=%s:%s %s/chibi-scheme /var/tmp/c14-replay.scm" % (
         prog.replace('"', '\\"'), d, os.path.join(d, "lib"), moddir, d)
 
@@ -1391,7 +1622,7 @@ def _judge_lit(ctx, d, moddir, gr, c, lp, got, spec_out, top):
     if not isinstance(got, tuple) or len(got) != len(lp["plan"]):
         ctx.broken("correspondence:literal", "driver answered %r for %d names" % (repr(got)[:300], len(lp["plan"])))
         return
-    # the model of sexp_identifier_eq_op: per ml a line of tokens, per name three digits (lit else =>)
+    # the model of sexp_identifier_eq_op: per ml a line of tokens, per name four digits (lit else => ulit)
     ideq = [x.split(" ") for x in spec_out[lp["ideq_ix"]].split(" | ")] if lp["mls"] else []
     if lp["mls"] and (len(ideq) != len(lp["mls"]) or any(len(x) != len(lp["names"]) for x in ideq)):
         ctx.broken("spec-driver", "ideq answered %r" % spec_out[lp["ideq_ix"]][:200])
@@ -1408,7 +1639,8 @@ def _judge_lit(ctx, d, moddir, gr, c, lp, got, spec_out, top):
     ctx.cov["traces_validated_against_impl"] += 1
     for ni, ((name, keys), o, res) in enumerate(zip(lp["plan"], spec, got)):
         cls = _kw_class(o, libs)
-        if not isinstance(res, tuple) or len(res) != len(keys) + len(lp["mls"]):
+        nml = len(lp["mls"])
+        if not isinstance(res, tuple) or len(res) != len(keys) + 2 * nml:
             ctx.broken("correspondence:literal", "driver answered %r for %s" % (repr(res)[:200], name))
             continue
         for key, g in zip(keys, res):
@@ -1420,48 +1652,52 @@ def _judge_lit(ctx, d, moddir, gr, c, lp, got, spec_out, top):
                           input="%s ; program imports: %s" % (LIT_FORMS[key].replace("<>", sym(name)), text), name=name, graph=graph,
                           expected="%r: %s denotes %s" % (exp, sym(name), {"U": "nothing (unbound)", "var": "a variable", "macro": "a macro"}.get(cls, "the auxiliary keyword %s of (scheme base) (R7RS 4.3.2: same binding, whatever the name)" % cls)),
                           observed=repr(g), replay=replay_lit(d, moddir, isets, LIT_FORMS[key].replace("<>", sym(name)), top))
-        for mi, (ml, info, g) in enumerate(zip(lp["mls"], mlinfo, res[len(keys):])):
+        after, before = res[len(keys):len(keys) + nml], res[len(keys) + nml:]
+        for mi, (ml, info) in enumerate(zip(lp["mls"], mlinfo)):
             if info is None or cls in ("A", "E", "?"):
                 continue
             dl, dm, inside = info
-            if len(inside) != 3 or "A" in inside or "E" in inside:
+            if len(inside) != len(LIT_NAMES) or "A" in inside or "E" in inside:
                 continue
+            # R7RS 4.3.2: the input identifier matches the literal iff both have the same binding, or both have none and are the same name
             which = "no"
-            for litname, lo in zip(("lit", "else", "=>"), inside):
-                if lo.startswith("O:") and lo == o:
+            for litname, lo in zip(LIT_NAMES, inside):
+                if (lo.startswith("O:") and lo == o) or (lo == "U" and o == "U" and litname == name):
                     which = litname
                     break
             exp = ("v14lit", dl, which)
-            # model of the code
+            if which != "no" and o == "U":
+                ctx.cov["unbound_literal_probes"] = ctx.cov.get("unbound_literal_probes", 0) + 1       # both unbound, same name: must match
+            # model of the code (IdEq.identifier_eq over the environments built by Env.env_import)
             mtok = ideq[mi][ni] if ideq else None
             mwhich = None
-            if mtok is not None and len(mtok) == 3:
+            if mtok is not None and len(mtok) == len(LIT_NAMES):
                 mwhich = "no"
-                for litname, bit in zip(("lit", "else", "=>"), mtok):
+                for litname, bit in zip(LIT_NAMES, mtok):
                     if bit == "1":
                         mwhich = litname
                         break
             ctx.count(1, key=("litm", top, shape, text.replace(gr["gid"], "G"), dm, ml, name), nontrivial=(which != "no" or cls != "U"))
             if mwhich is not None and mwhich != which:
-                # chibi (SEXP_USE_STRICT_TOPLEVEL_BINDINGS 0, eval.c:681-692) also equates two identifiers of the SAME NAME that denote
-                # different top-level VARIABLES (or nothing); the model has that rule, the SPEC does not.  Not compared.
-                if g == ("v14lit", dl, mwhich):
-                    ctx.cov["nonstrict_toplevel_literal"] = ctx.cov.get("nonstrict_toplevel_literal", 0) + 1
-                    continue
-                if g == exp and name == mwhich:
-                    # the model applies the non-strict rule (same NAME as the literal, neither cell syntax) where chibi in fact answers like
-                    # the SPEC: the hand model's [plain] (decided from the definition's name) is coarser than sexp_lambdap /
-                    # sexp_env_cell_syntactic_p of the real cell.  Only inside the non-strict region; counted, open issue in the notes.
-                    ctx.cov["model_nonstrict_overapprox"] = ctx.cov.get("model_nonstrict_overapprox", 0) + 1
-                    continue
-                ctx.broken("model:identifier-eq-vs-spec", "(%s %s) with imports %s: IdEq.identifier_eq says %s, the SPEC (same binding) %s, chibi %r" % (ml, name, text, mwhich, which, g))
+                # theorem identifier_eq_is_r7rs_literal_match says this cannot happen
+                ctx.broken("model:identifier-eq-vs-spec", "(%s %s) with imports %s: IdEq.identifier_eq says %s, the SPEC (R7RS 4.3.2) %s, chibi %r / %r" % (ml, name, text, mwhich, which, before[mi], after[mi]))
                 continue
-            if g == exp:
-                continue
-            ctx.violation("literal:%s:%s" % (dm, "not-recognised" if which != "no" else "wrongly-recognised"),
-                          input="(%s %s) ; program imports: %s" % (sym(ml), sym(name), text), name=name, graph=graph,
-                          expected="%r: %s is %s of library %s, whose literals (lit else =>) denote %s there; %s denotes %s" % (exp, ml, dm, dl, " ".join(inside), sym(name), o),
-                          observed=repr(g), replay=replay_lit(d, moddir, isets, "(%s %s)" % (sym(ml), sym(name)), top))
+            for when, g in (("", before[mi]), ("after-reference", after[mi])):
+                if g == exp:
+                    continue
+                both_unbound = which != "no" and o == "U"
+                if both_unbound and ((when and before[mi] == exp) or top):
+                    # (in a top-level program the outer probes have evaluated every name before the literal probes run)
+                    # F-C14-3: right until the program REFERS to the unbound variable (the keyed probes evaluate it), wrong afterwards
+                    sig = "literal:%s:unbound-literal-after-reference:not-recognised" % dm
+                else:
+                    sig = "literal:%s:%s" % (dm, "not-recognised" if which != "no" else "wrongly-recognised")
+                ctx.violation(sig, input="(%s %s) ; program imports: %s%s" % (sym(ml), sym(name), text, " ; after the program evaluated the (unbound) variable %s" % sym(name) if when and o == "U" else ""),
+                              name=name, graph=graph,
+                              expected="%r: %s is %s of library %s, whose literals (%s) denote %s there; %s denotes %s in the program (R7RS 4.3.2: match iff same binding, or both unbound and the same name)" % (
+                                  exp, ml, dm, dl, " ".join(LIT_NAMES), " ".join(inside), sym(name), o),
+                              observed=repr(g), replay=replay_lit(d, moddir, isets, "(%s %s)" % (sym(ml), sym(name)), top, pre=(sym(name) if when and o == "U" else None)))
+                break
     if not getattr(ctx, "_c14_lit_sampled", False):
         ctx._c14_lit_sampled = True
         ctx.sample(dict(kind="literal", imports=text, plan=[(n, ks) for n, ks in lp["plan"][:6]], mls=lp["mls"], spec=spec[:6], impl=repr(got[:6])[:600]))
@@ -1475,7 +1711,7 @@ def gen_ce_feature(rng, features, gid, libs, depth):
             return rng.choice(features)
         if k < 0.6:
             return rng.choice(["nope", "x", "c14-no-such-feature", "else-not"])
-        if k < 0.8:
+        if k < 0.8 and libs:
             return ("library", iset_str(("lib", rng.choice(libs).name)))
         return ("library", "(v14 %s nolib%d)" % (gid, rng.randint(0, 3)))
     if r < 0.5:
@@ -1528,6 +1764,8 @@ def _judge_condexp(ctx, d, moddir, gr, c, got, model, features):
             exp = body
             break
     impl = got[1] if isinstance(got, tuple) and len(got) == 2 and got[0] == "OK" else ("ERR", got)
+    if c.get("expect") is not None and exp != c["expect"]:
+        ctx.broken("generator:cond-expand-declaration", "the clause list of a library declaration selects %r, the generator placed the real declaration in %r: %s" % (exp, c["expect"], c["text"]))
     if model.startswith("ERR"):
         mval = ("ERR", model)
     else:
